@@ -26,6 +26,7 @@ def binary_shapes(n, memo={}):
 
 class Check(PropCheck):
     pid = 'C12'
+    pure_predicate = True
     rule = ('all ordered rooted binary shapes with <= 7 (quick) / 9 (thorough) leaves, random binary trees to 200 leaves, trees obtained by '
             'edit histories (prune+compress, merge, resolve) and by UPGMA (cached depths matter for Sackin), unrooted and multifurcating '
             'trees for the generic measures and the refusals; lengths exact dyadic (bit-exact), all absent (edge counts) or inexact (1e-9); '
